@@ -49,6 +49,10 @@ func DecodeDecrypt(
 		}
 	}
 
+	if len(ikeMsg.Payloads) == 0 && ikeMsg.NextPayload == uint8(message.TypeSK) {
+		return nil, errors.Errorf("IKE decode decrypt: the announced encrypted payload is missing")
+	}
+
 	if len(ikeMsg.Payloads) > 0 && ikeMsg.Payloads[0].Type() == message.TypeSK {
 		if ikesaKey == nil {
 			return nil, errors.Errorf("IKE decode decrypt: need ikesaKey to decrypt")
